@@ -500,3 +500,11 @@ def instances(tier):
     out.append(autoref_instance('souden', 2, 2))
     out.append(autoref_instance('wmwf', 2, 2))
     return out
+
+
+_inst_before_lemmas = instances
+
+
+def instances(tier):       # noqa: F811
+    from .common import lemma_instance
+    return _inst_before_lemmas(tier) + [lemma_instance('C11', 'mvdr', 'lemma:mvdr-optimality-from-the-normal-equation')]
